@@ -589,6 +589,7 @@ class Engine:
                 if s.expect_fatal: raise PathEnd('expected Fatal(): ' + txt)
                 raise Violation('Fatal(): ' + txt)
             return None
+        if name == '@_Z17GetProcessorCountv': return 4        # asks the operating system (cgroup files, sched_getaffinity): outside the encoding
         if name in ('@_ZN13StatusPrinter5ErrorEPKcz', '@_ZN13StatusPrinter7WarningEPKcz', '@_ZN13StatusPrinter4InfoEPKcz'):
             # (this, fmt, ...) forwards its va_list to ::Error / ::Warning / ::Info: formatted here, like those
             return s.call('@_Z5ErrorPKcz' if 'Error' in name else '@_Z7WarningPKcz' if 'Warning' in name else '@_Z4InfoPKcz', args[1:])
@@ -1361,6 +1362,15 @@ class Engine:
             return 0
         if n == 'verif_file_size':
             path = s.cstring(args[0]); return len(V[path]) if path in V else 0xFFFFFFFFFFFFFFFF
+        if n == 'verif_vfs_save':       # snapshot of the persistent file system state (for control experiments inside one path)
+            import copy
+            s.vfs_saved = getattr(s, 'vfs_saved', {}); slot = s.concretize(args[0], 32)
+            s.vfs_saved[slot] = ({k: list(v) for k, v in V.items() if not k.startswith('<')}, dict(s.vfs_id), dict(s.vfs_mtime), set(s.vfs_dirs)); return None
+        if n == 'verif_vfs_restore':
+            slot = s.concretize(args[0], 32); files, ids, mt, dirs = s.vfs_saved[slot]
+            for k in [k for k in V if not k.startswith('<')]: del V[k]
+            for k, v in files.items(): V[k] = list(v)
+            s.vfs_id = dict(ids); s.vfs_mtime = dict(mt); s.vfs_dirs = set(dirs); return None
         if n == 'verif_file_hash':
             path = s.cstring(args[0])
             if path not in V: return 0xFFFFFFFFFFFFFFFF
